@@ -963,3 +963,86 @@ func R20EscapeSiblings(c *Ctx) {
 		}
 	}
 }
+
+// R20ListEnds — removing the first or last node of a token list moves the list's end markers.
+func R20ListEnds(c *Ctx) {
+	const rule = "R20-list-ends"
+	c.R.Rule(rule, "in hclwrite's (*node).Detach every path on which the node is known to be the list's last (resp. first) member passes a store to nodes.last (resp. nodes.first) or a call of nodes.Clear before the function returns: a tail removal that leaves `last` pointing at the detached node makes the next append hang its node off the detached one, outside the chain that is serialised", 2)
+	fn := c.P.Func(PkgYaotl+"/hclwrite", "node.Detach")
+	if fn == nil {
+		c.R.Anchor(rule, "hclwrite.(*node).Detach")
+		return
+	}
+	n := 0
+	for _, end := range []string{"first", "last"} {
+		isEndLoad := func(v ssa.Value) bool { return IsFieldLoad("", end)(v) && !IsFieldLoad("", "list")(v) }
+		fixes := func(b *ssa.BasicBlock) bool {
+			for _, in := range b.Instrs {
+				switch x := in.(type) {
+				case *ssa.Store:
+					if t, f, _, ok := FieldOf(x.Addr); ok && strings.HasSuffix(t, "hclwrite.nodes") && f == end {
+						return true
+					}
+				case ssa.CallInstruction:
+					if strings.HasSuffix(CalleeName(x), "hclwrite.nodes).Clear") {
+						return true
+					}
+				}
+			}
+			return false
+		}
+		for _, b := range fn.Blocks {
+			iff, ok := b.Instrs[len(b.Instrs)-1].(*ssa.If)
+			if !ok {
+				continue
+			}
+			bo, ok := iff.Cond.(*ssa.BinOp)
+			if !ok || bo.Op != token.EQL {
+				continue
+			}
+			var other ssa.Value
+			switch {
+			case isEndLoad(bo.X):
+				other = bo.Y
+			case isEndLoad(bo.Y):
+				other = bo.X
+			default:
+				continue
+			}
+			if !IsParam(other, fn.Params[0]) {
+				continue
+			}
+			n++
+			construct := "n is the list's " + end + " member → nodes." + end + " is moved"
+			// from the true edge: can a return be reached without a fixing block?
+			leak := false
+			seen := map[*ssa.BasicBlock]bool{}
+			var walk func(x *ssa.BasicBlock)
+			walk = func(x *ssa.BasicBlock) {
+				if seen[x] || leak {
+					return
+				}
+				seen[x] = true
+				if fixes(x) {
+					return
+				}
+				if len(x.Succs) == 0 {
+					leak = true
+					return
+				}
+				for _, s := range x.Succs {
+					walk(s)
+				}
+			}
+			walk(b.Succs[0])
+			if leak {
+				c.R.Bad(rule, FuncShort(fn), construct, c.pos(bo.Pos()), "on a path where the detached node is the list's "+end+" member the function returns without updating nodes."+end+": the list keeps pointing at a node that is no longer linked")
+			} else {
+				c.R.Ok(rule, FuncShort(fn), construct, c.pos(bo.Pos()), "the end marker is moved (or the list cleared) on every such path", true)
+			}
+		}
+	}
+	if n < 2 {
+		c.R.Anchor(rule, "the first/last membership tests of (*node).Detach")
+	}
+}
